@@ -4,6 +4,7 @@ SPEC = {'id': 'C13',
  'modules': ['Snowflake.Props.C13', 'Snowflake.Tie.SessionDesc'],
  'theorems': [('Snowflake.Props.C13', 'Snowflake.SessionDesc.C13.sdp_roundtrip'),
               ('Snowflake.Props.C13', 'Snowflake.SessionDesc.C13.roundtrip_items'),
+              ('Snowflake.Props.C13', 'Snowflake.SessionDesc.C13.serialize_injective'),
               ('Snowflake.Props.C13', 'Snowflake.SessionDesc.C13.sdp_roundtrip_bytes'),
               ('Snowflake.Props.C13', 'Snowflake.SessionDesc.C13.other_type_rejected'),
               ('Snowflake.Props.C13', 'Snowflake.SessionDesc.C13.deserialize_total'),
